@@ -40,3 +40,14 @@ Print Assumptions C12_metadata_merge.
 
 Example C12_nonvacuous : Forall op_wf demo /\ trace_ok ainit demo (mrun minit demo) = true.
 Proof. split; [exact demo_wf | exact demo_ok]. Qed.
+
+(* ---- tie C (extended): statements about the Gallina translation of the SOURCE TEXT, regenerated from
+   /repo on every run (Gen/Source.v); external calls are function parameters of the generated definitions ---- *)
+From CG Require Import Model.Loop Gen.Source Proofs.GenEq4.
+
+(* MemoryTimeline._fetch_static (binary search on the end bound, scan, reverse) on every store the
+   timeline can build *)
+Theorem C12_source_fetch_static_is_model : forall evs a b rv,
+  g_mem_fetch_static (sl_build evs) a b rv = fetch_static (sl_build evs) a b rv.
+Proof. exact src_stored_is_model_on_built_stores. Qed.
+Print Assumptions C12_source_fetch_static_is_model.
